@@ -579,6 +579,20 @@ pub fn mean(values: &[Value]) -> Value {
   Value::Number(sum / values.len().into())
 }
 
+/// Compares numbers in a total order: a value that is not a number (the only value that is not
+/// equal to itself) follows all numbers. The sort of the standard library may panic when
+/// the comparison function is not a total order.
+fn compare_numbers(x: &FeelNumber, y: &FeelNumber) -> std::cmp::Ordering {
+  use std::cmp::Ordering::{Equal, Greater, Less};
+  let is_number = |n: &FeelNumber| n.partial_cmp(n) == Some(Equal);
+  match (is_number(x), is_number(y)) {
+    (true, true) => x.partial_cmp(y).unwrap_or(Equal),
+    (true, false) => Less,
+    (false, true) => Greater,
+    (false, false) => Equal,
+  }
+}
+
 /// Returns the median of numbers.
 pub fn median(values: &[Value]) -> Value {
   if values.is_empty() {
@@ -592,7 +606,7 @@ pub fn median(values: &[Value]) -> Value {
       return value_null!("median");
     }
   }
-  list.sort_by(|x, y| x.partial_cmp(y).unwrap_or(std::cmp::Ordering::Equal));
+  list.sort_by(compare_numbers);
   let index = values.len() / 2;
   if list.len() % 2 == 0 {
     Value::Number((list[index - 1] + list[index]) / FeelNumber::two())
@@ -652,7 +666,7 @@ pub fn mode(values: &[Value]) -> Value {
     }
   }
   // sort values in ascending order
-  list.sort_by(|x, y| x.partial_cmp(y).unwrap_or(std::cmp::Ordering::Equal));
+  list.sort_by(compare_numbers);
   // calculate the frequencies of the numbers
   let mut mode: Vec<(usize, FeelNumber)> = vec![];
   for x in list {
@@ -669,7 +683,7 @@ pub fn mode(values: &[Value]) -> Value {
   }
   // sort frequencies in descending order, and when equal then by number in ascending order
   mode.sort_by(|x, y| match x.0.cmp(&y.0).reverse() {
-    std::cmp::Ordering::Equal => x.1.partial_cmp(&y.1).unwrap_or(std::cmp::Ordering::Equal),
+    std::cmp::Ordering::Equal => compare_numbers(&x.1, &y.1),
     other => other,
   });
   // there is minimum one element in the list, so unwrap is ok
